@@ -11,6 +11,7 @@ import multiprocessing
 import os
 import shutil
 import tempfile
+import threading
 
 import numpy as np
 
@@ -30,6 +31,31 @@ def _region_sampler(y0, y1, x0, x1, value):
         return v
 
     return sampler
+
+
+_ESTALE_REG = {}  # virtual process (thread) -> [] until its one injected read fault has fired
+_FLAKY = []
+
+
+def _install_flaky_loader():
+    """One permanent wrapper around ImageLoader.load_path (the same function object in every execution): for a process
+    registered in _ESTALE_REG the first load of an existing file fails with ESTALE."""
+    if _FLAKY:
+        return
+    import errno
+    from toasty import image as _im
+
+    real_load = _im.ImageLoader.load_path
+
+    def flaky(self, path, *a, **k):
+        st = _ESTALE_REG.get(threading.get_ident())
+        if st is not None and not st and os.path.exists(path):
+            st.append(1)
+            raise OSError(errno.ESTALE, "Stale file handle (injected)")
+        return real_load(self, path, *a, **k)
+
+    _im.ImageLoader.load_path = flaky
+    _FLAKY.append(flaky)
 
 
 def updater(pio, updates, fmt):
@@ -55,6 +81,24 @@ def updater(pio, updates, fmt):
                     raise stages.InjectedFault("injected failure in the body of an update of %r" % (pos,))
             except stages.InjectedFault:
                 pass
+            continue
+        if isinstance(value, str) and value.startswith("estale:"):
+            # the read of the EXISTING tile under the lock fails once with a transient error (ESTALE, what a network file
+            # system answers when another host has just replaced the file); the updater retries its update.  The failed
+            # attempt must leave the tile as it was
+            v = float(value.split(":")[1])
+            _install_flaky_loader()
+            _ESTALE_REG[threading.get_ident()] = []
+            try:
+                for _attempt in range(3):
+                    try:
+                        with pio.update_image(Pos(*pos), masked_mode=ImageMode.F32, default="masked", format=fmt) as basis:
+                            Image.from_array(np.full((y1 - y0, x1 - x0), v, dtype=np.float32)).update_into_maskable_buffer(basis, slice(0, y1 - y0), slice(0, x1 - x0), slice(y0, y1), slice(x0, x1))
+                        break
+                    except OSError:
+                        continue
+            finally:
+                _ESTALE_REG.pop(threading.get_ident(), None)
             continue
         if value == "abort-write":
             # an update whose write-back fails (disk full) before anything is written: as if it had never happened
@@ -246,6 +290,8 @@ def configs(tier):
     cfgs += [
         UpdateHarness("2-one-aborts", [[(T0, R["left"], 1.0)], [(T0, R["right"], "abort")]]),
         UpdateHarness("3-one-aborts", [[(T0, R["left"], 1.0)], [(T0, R["mid"], "abort")], [(T0, R["top"], 3.0)]]),
+        UpdateHarness("2-one-read-estale", [[(T0, R["left"], 1.0)], [(T0, R["right"], "estale:2.0")]]),
+        UpdateHarness("3-one-read-estale", [[(T1, R["left"], 1.0)], [(T1, R["mid"], "estale:2.0")], [(T1, R["top"], 3.0)]], default_format="fits"),
         UpdateHarness("3-one-write-fails", [[(T0, R["left"], 1.0)], [(T0, R["mid"], "abort-write")], [(T0, R["top"], 3.0)]]),
         UpdateHarness("2-abort-then-update", [[(T1, R["left"], "abort"), (T1, R["px"], 5.0)], [(T1, R["right"], 2.0)]], default_format="fits"),
     ]
